@@ -452,7 +452,12 @@ def apply_stage(ds, st, parallel=True):
     if op == 'parmap':
         if parallel:
             w, b, backend = par_args(st)
+            if st.get('batched'):
+                return ds.batch_map(MapFn(st['id']), num_workers=w, buffer_size=b,
+                                    backend=backend)
             return ds.map(MapFn(st['id']), num_workers=w, buffer_size=b, backend=backend)
+        if st.get('batched'):
+            return ds.batch_map(MapFn(st['id']))
         return ds.map(MapFn(st['id']))
     raise ValueError(op)
 
